@@ -116,12 +116,11 @@ def run(ctx):
     sink_out = os.path.join(ctx.tmp, "c16.outage")
     sink_flap = os.path.join(ctx.tmp, "c16.flap")
     sink_lim = os.path.join(ctx.tmp, "c16.limits")
-    sink_w = os.path.join(ctx.tmp, "c16.weights")
+    sink_w = sink_flap
     jobs = [
         ("per-call universe", dict(calls=ctx.pick("MCCallsQuick", "MCCallsFull"), slots=ctx.pick("MCSlotsH", "MCSlots4")), sink_call, "mc_call"),
-        ("flapping", dict(calls="MCCallsFlap", tables="MCTablesFlap", nc=2, ns=2, nt=1), sink_flap, "mc_flap"),
-        ("size limits", dict(calls="MCCallsLimits", slots="MCSlots2"), sink_lim, "mc_limits"),
-        ("weights", dict(calls="MCCallsFlap", slots="MCSlotsW", tables="MCTablesWeight", nc=1, ns=1, nt=1, mid="TRUE"), sink_w, "mc_weights"),
+        # flapping backends, and table changes / clean-up while a stream is in flight (zero-weight targets), in one run
+        ("flapping+weights", dict(calls="MCCallsFlap", slots="MCSlotsW", tables="MCTablesFW", nc=2, ns=2, nt=1, mid="TRUE"), sink_flap, "mc_flap"),
         ("histories", dict(calls=ctx.pick("MCCallsHistSmall", "MCCallsHist"), tables="MCTablesAll", nc=3, ns=2, nt=ctx.pick(1, 2)), sink_hist, "mc_hist"),
         ("bursts", dict(calls="MCCallsHistSmall", tables="MCTablesAll", nc=ctx.pick(0, 1), ns=1, nt=1, nb=1), sink_burst, "mc_burst"),
         ("outages", dict(calls="MCCallsOutage", tables="MCTablesAll", nc=ctx.pick(4, 5), ns=1, nt=1, nd=1), sink_out, "mc_outage"),
@@ -254,7 +253,8 @@ def run(ctx):
     for b in sorted(read(sink_flap), key=key):
         last = b["steps"][-1]
         ops = [x["op"] for x in b["steps"]]
-        if last["op"] == "call" and "d" in last.get("ord", []) and ops.count("tick") == 1 and effective_ticks(b) == 1:
+        if (last["op"] == "call" and "d" in last.get("ord", []) and ops.count("tick") == 1 and effective_ticks(b) == 1
+                and not any(set("tk") & set(x.get("ord", [])) for x in b["steps"])):
             pos = last["ord"].index("d")
             if 0 < pos < len(last["ord"]) - 1:
                 b["flap"] = True
@@ -273,7 +273,7 @@ def run(ctx):
     for b in sorted(read(sink_w), key=key):
         last = b["steps"][-1]
         o = last.get("ord", [])
-        if (last["op"] == "call" and "t" in o and "k" in o and 0 < o.index("t") < o.index("k")
+        if (last["op"] == "call" and len(b["steps"]) == 2 and "t" in o and "k" in o and "d" not in o and 0 < o.index("t") < o.index("k")
                 and any(e in ("q", "r") for e in o[o.index("k"):]) and any(r.get("zero") and r["be"] == last["be"] for r in last["tabs"][0])):
             b["drive"] = "lock"
             weights.append(b)
@@ -290,6 +290,8 @@ def run(ctx):
     if not burst_plain or not burst_tick or not chosen_flap or not chosen_out or out_score(chosen_out[0])[0] != -1:
         ctx.inconclusive("the generator produced no burst / burst+clean-up / outage+recovery+clean-up behaviour")
         return
+    lim_src = [x for x in calls if "qB" in x["steps"][-1]["call"]["reqs"]]
+    calls = [x for x in calls if "qB" not in x["steps"][-1]["call"]["reqs"]]
     for b in calls:
         b["mode"] = "shared"
     # binding self-test: corrupted expectations must be rejected by the harness
@@ -306,7 +308,7 @@ def run(ctx):
     selftests = [corrupt(base, how) for how in ("resp", "status", "backend", "conn")]
     # non-default message size limits (rx > tx): one interleaving per call is enough here
     lims, seen_call = [], set()
-    for b in sorted(read(sink_lim), key=key):
+    for b in sorted(lim_src, key=key):
         k = json.dumps(b["steps"][-1]["call"], sort_keys=True)
         if k not in seen_call:
             seen_call.add(k)
@@ -324,21 +326,51 @@ def run(ctx):
                        ":" + ",".join(s.get("closed", [])) if s["op"] == "tick" else
                        ":" + s["be"] + ("x%d" % s["n"] if s["op"] == "burst" else "") if s["op"] in ("down", "up", "burst") else
                        ":" + ",".join(sorted(set(r["be"] for r in s["table"])))) for s in b["steps"]))
-    cases = os.path.join(ctx.tmp, "c16.cases")
-    vf.write_ndjson(cases, allb)
+    # The behaviours that wait for the proxy's own timers (clean-up period, grace, reconnect back-off) each get a
+    # test process of their own -- every process has its own routing table -- beside the one that replays the rest.
+    waiting = chosen_ticks + chosen_flap + weights + burst_tick_q + chosen_out
+    wait_ids = {id(b) for b in waiting}
+    groups = [[b for b in allb if id(b) not in wait_ids]] + [[] for _ in range(min(3, len(waiting)))]
+    for i, b in enumerate(waiting):
+        groups[1 + i % (len(groups) - 1)].append(b)
+    case_files = []
+    for gi, g in enumerate(groups):
+        case_files.append(os.path.join(ctx.tmp, "c16.cases.%d" % gi))
+        vf.write_ndjson(case_files[-1], g)
     ctx.log("replaying %d per-call behaviours, %d histories, %d with a closing clean-up tick (of %d / %d / %d generated), %d bursts (+%d with clean-up), %d outages"
             % (len(calls), len(plain), len(chosen_ticks), len(calls), len(hists) - len(ticked), len(ticked), len(burst_plain), len(burst_tick), len(chosen_out)))
 
-    r = run_harness(ctx, cases, "C16 replay", timeout=ctx.pick(300, 800))
-    if r is None:
+    results = [None] * len(groups)
+
+    def replay_job(gi):
+        results[gi] = run_harness(ctx, case_files[gi], "C16 replay (group %d)" % gi, timeout=ctx.pick(300, 800))
+    threads = []
+    for gi in range(len(groups)):
+        t = threading.Thread(target=replay_job, args=(gi,))
+        t.start()
+        threads.append(t)
+        time.sleep(0.5)             # ctx.gotest numbers its scratch directories when it is entered
+    for t in threads:
+        t.join()
+    if any(x is None for x in results):
         return
-    s = r.summary
+    s = {}
+    for x in results:
+        for k, v in x.summary.items():
+            if isinstance(v, bool) or not isinstance(v, (int, float)):
+                continue
+            s[k] = s.get(k, 0) + v
+    s["samples"] = [y for x in results for y in (x.summary.get("samples") or [])]
+    s["aborted"] = "; ".join(x.summary["aborted"] for x in results if x.summary.get("aborted"))
+    r = results[0]
+    r.wall = max(x.wall for x in results)
     ctx.log("replayed %d behaviours: %d calls, %d messages, %d closing ticks, %d bursts, %d outages, %d failed, %.0fs"
             % (s["behaviours"], s["calls"], s["messages"], s["ticks"], s["bursts"], s["outages"], s["fails"], r.wall))
     ctx.cover(traces_validated_against_impl=s["behaviours"], evaluations=s["calls"], distinct_nontrivial=s["distinct_nontrivial"],
               samples=s.get("samples") or [], exhaustive=bool(ctx.thorough),
               rule="one behaviour per transition TLC examined that completes a call, a burst or a closing clean-up tick (shortest history to the source state + that step); per-call universe complete, histories complete in thorough and a seeded slice in quick, bursts distinct ones (24 in quick) x 2-5 plays, outages chosen by shape (refused calls + recovery + leaving + clean-up first); non-trivial = distinct behaviour with a routed call that moved >=2 messages, or a burst")
-    ctx.take_failures(r, "c16")
+    for x in results:
+        ctx.take_failures(x, "c16")
     if s.get("flaps_degenerate"):
         ctx.log("%d flapping behaviour(s) said nothing: the proxy's clean-up ran later than expected" % s["flaps_degenerate"])
     if s.get("aborted"):
